@@ -28,14 +28,14 @@ class BNAddEdge(Contract):
     def pre(self, ex, st, args):
         g = args["self"]
         th = ex.lib.theory(ex)
-        return z3.And(wf_graph(g), th.acyclic(g.fields["_E"]))
+        return z3.And(wf_graph(g), th.acyclic(g.fields["@E"]))
 
     def snapshot(self, ex, st, args):
         return graph_snapshot(args["self"])
 
     def raises(self, ex, st, args):
         g, u, v = args["self"], args["u"].z, args["v"].z
-        P = ex.lib.theory(ex).path(g.fields["_E"])
+        P = ex.lib.theory(ex).path(g.fields["@E"])
         return {"ValueError": z3.Or(u == v, z3.And(N_(g, u), N_(g, v), P(v, u)))}
 
     def on_raise(self, ex, st, args, old, exc):
@@ -44,7 +44,7 @@ class BNAddEdge(Contract):
     def post(self, ex, st, args, old, result):
         g, u, v = args["self"], args["u"].z, args["v"].z
         th = ex.lib.theory(ex)
-        E0, E1 = old["_E"], g.fields["_E"]
+        E0, E1 = old["@E"], g.fields["@E"]
         P0 = th.path(E0)
         a, b = fresh("a", Atom), fresh("b", Atom)
         # ghost lemmas (leastness instances, each a theorem of the least fix-point):
@@ -55,7 +55,7 @@ class BNAddEdge(Contract):
         st.assume(th.induct_backward(E0, z3.Store(empty_set(Atom), u, True)))
         return z3.And(
             z3.ForAll([a, b], E1[a, b] == z3.Or(E0[a, b], z3.And(a == u, b == v))),
-            z3.ForAll([a], g.fields["_nodes"][a] == z3.Or(old["_nodes"][a], a == u, a == v)),
+            z3.ForAll([a], g.fields["@nodes"][a] == z3.Or(old["@nodes"][a], a == u, a == v)),
             z3.ForAll([a], g.fields["latents"].mem[a] == old["latents"][a]),
             wf_graph(g),
             th.acyclic(E1),
@@ -107,8 +107,8 @@ class DAGDo(Contract):
         a, b = fresh("a", Atom), fresh("b", Atom)
         inplace = z3.is_true(args["inplace"].z)
         parts = [
-            z3.ForAll([a, b], result.fields["_E"][a, b] == z3.And(old["_E"][a, b], z3.Not(X[b]))),
-            z3.ForAll([a], result.fields["_nodes"][a] == old["_nodes"][a]),
+            z3.ForAll([a, b], result.fields["@E"][a, b] == z3.And(old["@E"][a, b], z3.Not(X[b]))),
+            z3.ForAll([a], result.fields["@nodes"][a] == old["@nodes"][a]),
         ]
         if inplace:
             parts.append(z3.BoolVal(result is g))
@@ -125,9 +125,9 @@ class DAGDo(Contract):
         done = ghost["done"]
         a, b = fresh("a", Atom), fresh("b", Atom)
         parts = [
-            z3.ForAll([a, b], dag.fields["_E"][a, b] == z3.And(old["_E"][a, b], z3.Not(done[b]))),
-            z3.ForAll([a], dag.fields["_nodes"][a] == old["_nodes"][a]),
-            z3.ForAll([a], z3.Implies(self.X(args)[a], old["_nodes"][a])),
+            z3.ForAll([a, b], dag.fields["@E"][a, b] == z3.And(old["@E"][a, b], z3.Not(done[b]))),
+            z3.ForAll([a], dag.fields["@nodes"][a] == old["@nodes"][a]),
+            z3.ForAll([a], z3.Implies(self.X(args)[a], old["@nodes"][a])),
         ]
         if dag is not g:
             parts.append(graph_unchanged(g, old))
@@ -141,12 +141,12 @@ class DAGDo(Contract):
         outer = st.ghost.get("done0")
         a, b = fresh("a", Atom), fresh("b", Atom)
         parts = [
-            z3.ForAll([a], dag.fields["_nodes"][a] == old["_nodes"][a]),
-            z3.ForAll([a], z3.Implies(self.X(args)[a], old["_nodes"][a])),
+            z3.ForAll([a], dag.fields["@nodes"][a] == old["@nodes"][a]),
+            z3.ForAll([a], z3.Implies(self.X(args)[a], old["@nodes"][a])),
             # edges into `node`: exactly the not-yet-removed parents; the iterated list is the old parent set of node
-            z3.ForAll([a], ghost["iter"][a] == z3.And(old["_E"][a, node], z3.Not(outer[node]) if outer is not None else z3.BoolVal(True))),
-            z3.ForAll([a, b], z3.Implies(b != node, dag.fields["_E"][a, b] == z3.And(old["_E"][a, b], z3.Not(outer[b]) if outer is not None else z3.BoolVal(True)))),
-            z3.ForAll([a], dag.fields["_E"][a, node] == z3.And(ghost["iter"][a], z3.Not(done1[a]))),
+            z3.ForAll([a], ghost["iter"][a] == z3.And(old["@E"][a, node], z3.Not(outer[node]) if outer is not None else z3.BoolVal(True))),
+            z3.ForAll([a, b], z3.Implies(b != node, dag.fields["@E"][a, b] == z3.And(old["@E"][a, b], z3.Not(outer[b]) if outer is not None else z3.BoolVal(True)))),
+            z3.ForAll([a], dag.fields["@E"][a, node] == z3.And(ghost["iter"][a], z3.Not(done1[a]))),
         ]
         if dag is not g:
             parts.append(graph_unchanged(g, old))
@@ -183,17 +183,17 @@ class BNRemoveNode(Contract):
 
     def havoc(self, ex, st, args):
         g = args["self"]
-        g.fields["_nodes"] = fresh("rn_nodes", set_sort(Atom))
+        g.fields["@nodes"] = fresh("rn_nodes", set_sort(Atom))
         from vf.pyvc.lib import RelSort
-        g.fields["_E"] = fresh("rn_E", RelSort)
+        g.fields["@E"] = fresh("rn_E", RelSort)
         g.fields["latents"] = Coll("set", Atom, fresh("rn_lat", set_sort(Atom)))
 
     def post(self, ex, st, args, old, result):
         g, n = args["self"], args["node"].z
         a, b = fresh("a", Atom), fresh("b", Atom)
         return z3.And(
-            z3.ForAll([a], g.fields["_nodes"][a] == z3.And(old["_nodes"][a], a != n)),
-            z3.ForAll([a, b], g.fields["_E"][a, b] == z3.And(old["_E"][a, b], a != n, b != n)),
+            z3.ForAll([a], g.fields["@nodes"][a] == z3.And(old["@nodes"][a], a != n)),
+            z3.ForAll([a, b], g.fields["@E"][a, b] == z3.And(old["@E"][a, b], a != n, b != n)),
             z3.ForAll([a], g.fields["latents"].mem[a] == z3.And(old["latents"][a], a != n)),
         )
 
@@ -220,7 +220,7 @@ class MNAddEdge(Contract):
     def pre(self, ex, st, args):
         g = args["self"]
         a = fresh("a", Atom)
-        return z3.And(wf_graph(g), z3.ForAll([a], z3.Not(g.fields["_E"][a, a])))
+        return z3.And(wf_graph(g), z3.ForAll([a], z3.Not(g.fields["@E"][a, a])))
 
     def snapshot(self, ex, st, args):
         return graph_snapshot(args["self"])
@@ -235,9 +235,9 @@ class MNAddEdge(Contract):
         g, u, v = args["self"], args["u"].z, args["v"].z
         a, b = fresh("a", Atom), fresh("b", Atom)
         return z3.And(
-            z3.ForAll([a, b], g.fields["_E"][a, b] == z3.Or(old["_E"][a, b], z3.And(a == u, b == v), z3.And(a == v, b == u))),
-            z3.ForAll([a], g.fields["_nodes"][a] == z3.Or(old["_nodes"][a], a == u, a == v)),
-            wf_graph(g), z3.ForAll([a], z3.Not(g.fields["_E"][a, a])))
+            z3.ForAll([a, b], g.fields["@E"][a, b] == z3.Or(old["@E"][a, b], z3.And(a == u, b == v), z3.And(a == v, b == u))),
+            z3.ForAll([a], g.fields["@nodes"][a] == z3.Or(old["@nodes"][a], a == u, a == v)),
+            wf_graph(g), z3.ForAll([a], z3.Not(g.fields["@E"][a, a])))
 
 
 register(MNAddEdge())
@@ -266,8 +266,8 @@ class BNCopy(Contract):
             return z3.BoolVal(False)
         a, b = fresh("a", Atom), fresh("b", Atom)
         lat = result.fields.get("latents")
-        return {"same-structure": z3.And(z3.ForAll([a], result.fields["_nodes"][a] == old["_nodes"][a]),
-                                         z3.ForAll([a, b], result.fields["_E"][a, b] == old["_E"][a, b]),
+        return {"same-structure": z3.And(z3.ForAll([a], result.fields["@nodes"][a] == old["@nodes"][a]),
+                                         z3.ForAll([a, b], result.fields["@E"][a, b] == old["@E"][a, b]),
                                          z3.ForAll([a], lat.mem[a] == old["latents"][a]) if isinstance(lat, Coll) and lat.mem is not None
                                          else z3.ForAll([a], z3.Not(old["latents"][a]))),
                 "fresh-object-and-own-latent-set": z3.BoolVal(result is not g and lat is not g.fields["latents"]),
